@@ -6,9 +6,10 @@
 
    Tensors are (shape, function from multi-indices to Q); values are the exact rationals of the
    float inputs, arithmetic is exact (the float32 rounding of the real code is absorbed by the
-   tolerance of the comparison in Check.v).  Random draws are explicit: every
-   np.random.default_rng(seed=...) call of the code asks the oracle G for the draw stream of the
-   k-th generator created with that seed argument.
+   tolerance of the comparison in Check.v).  Random draws are explicit: every generator the code
+   creates -- np.random.default_rng(seed + idx) with a seed, GlobalRng() (the process-global numpy
+   generator) without -- asks the oracle G for the draw stream of the k-th generator created with
+   that seed argument (None: no seed).
 
    NOT modelled: float rounding; tensors of differing rank inside one dataset (ERank: torch's
    broadcasting rules decide there); label vectors whose length is not n_classes; the constructor's
@@ -311,7 +312,7 @@ Record call := { c_sample : sample; c_rest : list draw }.
 (* one entry of self._getitem_fns applied to idx; k = number of generators created so far *)
 Definition run_fn (ds : dataset) (c : cfg) (G : oracle) (idx : nat) (f : fitem) (k : nat)
   : res (ret * list call) :=
-  let sd := option_map (fun s => s + Z.of_nat idx) (seed c) in   (* seed + idx if seed is not None else None *)
+  let sd := option_map (fun s => s + Z.of_nat idx) (seed c) in   (* default_rng(seed + idx) if seed is not None else GlobalRng() *)
   match f with
   | FI TIndex => Ok (R1 (VIndex idx), [])
   | FI (TOther _) => Err EAssertAttr        (* assert hasattr(type(self.dataset), fn_name), at construction *)
